@@ -72,10 +72,16 @@ flush_before_rename!(c10_unspent_f0, 1, 0);
 flush_before_rename!(c10_unspent_0_ok, 0, usize::MAX);
 
 // C02: file name; C07 unspent_rows: row content with real formatting (one entry, symbolic small index)
-//@ id=C02,C07 tier=extra name=c07_unspent_row timeout=5400 role=unspent_rows bound=1-entry,index<10-symbolic,height/value-single-digit,start-7,last-99 mem=20 fn=UnspentCsvDump::on_complete,UnspentCsvDump::on_start
+//@ id=C02,C07 tier=extra name=c07_unspent_row timeout=5400 role=unspent_rows bound=1-entry,index<10-symbolic,height/value-single-digit,start-7,last-9 mem=20 fn=UnspentCsvDump::on_complete,UnspentCsvDump::on_start
 #[kani::proof]
-#[kani::unwind(70)]
-fn c07_unspent_row() {
+#[kani::unwind(120)]
+fn c07_unspent_row() { unspent_row_body(false) }
+//@ id=C02,C07 tier=quick name=c07_unspent_row_m timeout=900 role=unspent_rows bound=1-entry,index<10-symbolic,height/value-single-digit,start-7,last-9,structured-format-model mem=20 fn=UnspentCsvDump::on_complete,UnspentCsvDump::on_start
+#[kani::proof]
+#[kani::unwind(120)] // header 35 + row 73 bytes compared in one loop
+fn c07_unspent_row_m() { unspent_row_body(true) }
+fn unspent_row_body(structured: bool) {
+    unsafe { fmtm::STRUCTURED.v = structured; if structured { fmtm::MAX_DIGITS.v = 1; } }
     unsafe { gfs::LOG_NAMES.v = true; }
     unsafe { gfs::LOG_CONTENT.v = true; }
     let idx: u32 = kani::any();
@@ -85,7 +91,7 @@ fn c07_unspent_row() {
     let mut cb = mk_dump(256);
     match cb.on_start(7) { Ok(()) => {}, Err(e) => { core::mem::forget(e); } }
     cb.unspents.insert(key(0xab, idx), common::UnspentValue { block_height: h, value: val, address: String::from("a") });
-    match cb.on_complete(99) { Ok(()) => {}, Err(e) => { core::mem::forget(e); assert!(false, "C07:completion_ok"); return; } }
+    match cb.on_complete(9) { Ok(()) => {}, Err(e) => { core::mem::forget(e); assert!(false, "C07:completion_ok"); return; } }
     // txid bytes [ab, 00 x31] are displayed reversed: 62 zeros then "ab"
     let mut want = [0u8; 160];
     let head = b"txid;indexOut;height;value;address\n";
@@ -100,7 +106,7 @@ fn c07_unspent_row() {
         assert!(gfs::ACCEPTED.v[3] == n, "C07:header_plus_one_row_per_entry");
         let mut i = 0;
         while i < n && i < gfs::LOGCAP { assert!(gfs::WLOG.v[3][i] == want[i], "C07:row_carries_txid_index_height_value_address"); i += 1; }
-        let wn = b"unspent-7-99.csv";
+        let wn = b"unspent-7-9.csv";
         assert!(gfs::RENAMES.v == 1 && gfs::RENAME_TO_LEN.v[0] == wn.len(), "C02:file_name_carries_start_and_last_height");
         let mut i = 0;
         while i < wn.len() { assert!(gfs::RENAME_TO.v[0][i] == wn[i], "C02:file_name_carries_start_and_last_height"); i += 1; }
